@@ -2089,7 +2089,7 @@ pub fn run(ctx: &Ctx, st: &mut Stats) {
             "builtins": builtins.len(),
         }),
     );
-    let n = ctx.tier.pick(40_000, 2_000_000);
+    let n = ctx.tier.pick(100_000, 2_000_000);
     RANDOM.run_random(ctx, st, n, arb_case);
 }
 
